@@ -115,3 +115,19 @@ Definition batch_ops (t : ty) (b : py_batch) : list pwop :=
 
 Definition py_stream_ops (t : ty) (batches : list py_batch) : list pwop :=
   concat (map (batch_ops t) batches) ++ [PWByte 0].
+
+(* ---------- a whole protocol ---------- *)
+(* BinaryProtocolWriter.__init__: write_bytes(MAGIC), write_fixed_int32(version), string_serializer.write(schema) *)
+Definition py_header_ops (schema : list N) : list pwop :=
+  [PWBytes magic; PWFixed 4 format_version; PWVar (N.of_nat (length schema)); PWBytes schema].
+
+Inductive pstep := PSVal (t : ty) (v : val) | PSStream (t : ty) (bs : list py_batch).
+
+Definition pstep_ops (s : pstep) : list pwop :=
+  match s with
+  | PSVal t v => py_wops t v
+  | PSStream t bs => py_stream_ops t bs
+  end.
+
+Definition py_protocol_ops (schema : list N) (steps : list pstep) : list pwop :=
+  py_header_ops schema ++ concat (map pstep_ops steps).
